@@ -38,8 +38,13 @@ class Infra(Exception):
 
 
 def scratch_dir(prefix="xv-"):
+    """a fresh directory this process may write to (see guard.py)"""
+    import guard
     base = os.environ.get("TMPDIR", "/tmp")
-    return tempfile.mkdtemp(prefix=prefix, dir=base)
+    with guard.bypass():
+        d = tempfile.mkdtemp(prefix=prefix, dir=base)
+    guard.allow(d)
+    return d
 
 
 class _Lock:
@@ -176,6 +181,8 @@ class Check:
     """One run of one property's check."""
 
     def __init__(self, pid, tier=None, seed=None):
+        import guard
+        guard.install()         # the code under test cannot write outside the check's scratch directories
         self.pid = pid
         self.tier = tier or os.environ.get("VERIF_TIER", "quick")
         if self.tier not in ("quick", "thorough"):
@@ -337,6 +344,11 @@ class Check:
         return exit_code
 
     def write_evidence(self, nviol, known_ids):
+        try:
+            import guard
+            self.extra["writes_refused_by_the_guard"] = len(guard.BLOCKED) + self.extra.get("writes_refused_by_the_guard", 0)
+        except Exception:
+            pass
         cov = {
             "obligations": len(self.obligations),
             "discharged": len(self.discharged),
@@ -387,4 +399,9 @@ def main_wrapper(fn):
         os._exit(2)
     sys.stdout.flush()
     sys.stderr.flush()
+    try:
+        import guard
+        guard.cleanup()
+    except Exception:
+        pass
     os._exit(rc)  # skip library destructors that complain at interpreter shutdown
